@@ -159,7 +159,12 @@ def _attach_parent_to_exprs(obj: Class | Function | Attribute, parent: Module | 
 
 
 def _load_module(obj_dict: dict[str, Any]) -> Module:
-    module = Module(name=obj_dict["name"], filepath=Path(obj_dict["filepath"]), docstring=_load_docstring(obj_dict))
+    filepath = obj_dict["filepath"]
+    if isinstance(filepath, list):
+        filepath = [Path(path) for path in filepath]  # Namespace package.
+    elif filepath is not None:  # None: built-in module.
+        filepath = Path(filepath)
+    module = Module(name=obj_dict["name"], filepath=filepath, docstring=_load_docstring(obj_dict))
     # YORE: Bump 2: Replace line with `members = obj_dict.get("members", {}).values()`.
     members = obj_dict.get("members", [])
     # YORE: Bump 2: Remove block.
